@@ -3,6 +3,7 @@ package c04
 
 import (
 	"fmt"
+	"net/url"
 	"runtime/debug"
 	"sort"
 	"strings"
@@ -17,7 +18,7 @@ import (
 // Op is one step of a history. Operands are symbolic (resolved in run against the live state), the zero value of every
 // exchange field is the honest choice, so a shrunk history reads as "honest flow + the deviations that matter".
 type Op struct {
-	Kind string `json:"op"` // authorize | login | callback | exchange
+	Kind string `json:"op"` // authorize | login | callback | exchange | race (race_test.go)
 
 	// authorize
 	Client   int      `json:"client,omitempty"`   // index into Clients (mod n)
@@ -44,6 +45,13 @@ type Op struct {
 
 	// callback, exchange: one storage fault injected into this very HTTP request (nil: the storage works)
 	Fault *vkit.Fault `json:"fault,omitempty"`
+
+	// race: 2-3 token requests (exchange ops; Code of a member is relative to the race's Code, 0 = the very same code) whose
+	// storage calls the harness interleaves: started in the order listed, each runs until it answered or one of Gates parked
+	// it; then the gates are released in Order (each released request again runs until it answered or parked), see race_test.go
+	Reqs  []Op       `json:"reqs,omitempty"`
+	Gates []GateSpec `json:"gates,omitempty"`
+	Order []int      `json:"order,omitempty"`
 }
 
 type Case struct {
@@ -51,6 +59,10 @@ type Case struct {
 	// EmptySecretOK: the storage compares secrets as plain strings, so a client that holds no secret "matches" an empty presented
 	// one (vkit.StorePolicy.EmptySecretOK; what example/server/storage does). Whoever presents nothing has proved nothing.
 	EmptySecretOK bool              `json:"empty_secret_ok,omitempty"`
+	// LaxDelete: the storage reports success when it is asked to delete an authorization request that no longer exists
+	// (vkit.StorePolicy.LaxDelete; what a map delete or an SQL DELETE of no row does). The default store reports an error,
+	// which is how the library learns that an overlapping token request has already spent the code.
+	LaxDelete bool `json:"lax_delete,omitempty"`
 	Router        string            `json:"router"`
 	SignAlg       string            `json:"sign_alg"`
 	Clients       []vkit.ClientSpec `json:"clients"`
@@ -99,6 +111,12 @@ func genClient(t *rapid.T, i int, kind string) vkit.ClientSpec {
 		c.AppType, c.AuthMethod = "native", "none"
 	case "spa":
 		c.AppType, c.AuthMethod = "user_agent", "none"
+	case "odd":
+		// a confidential client whose registration names none of the four methods the OP implements
+		c.AppType, c.AuthMethod = "web", rapid.SampledFrom(oddMethods).Draw(t, fmt.Sprintf("cl%d-oddmethod", i))
+		if rapid.IntRange(0, 5).Draw(t, fmt.Sprintf("cl%d-oddsecret", i)) > 0 {
+			c.Secret = "secret-of-" + id
+		} // else: holds no secret at all (as a tls_client_auth registration would)
 	}
 	lbl := fmt.Sprintf("cl%d-", i)
 	// some clients share a redirect URI on purpose
@@ -128,6 +146,10 @@ func genClient(t *rapid.T, i int, kind string) vkit.ClientSpec {
 	c.JWTAccessToken = rapid.IntRange(0, 3).Draw(t, lbl+"jwtat") == 0
 	return c
 }
+
+// oddMethods: token_endpoint_auth_method values of a registration that the OP does not implement: never set (zero value), methods
+// of OIDC Core / RFC 8705 it lacks, spellings that are not the registered constants, something made up.
+var oddMethods = []string{"", "", "client_secret_jwt", "tls_client_auth", "self_signed_tls_client_auth", "CLIENT_SECRET_BASIC", "basic", "x-custom-method"}
 
 // nearKinds: derivations of the request's redirect URI that a lenient ("normalising") comparison would let through.
 // All of them differ from the original as strings, so the statement ("equals") refuses every one.
@@ -302,12 +324,10 @@ func genCase(t *rapid.T) Case {
 	return c
 }
 
-func genCase0(t *rapid.T) Case {
-	var c Case
-	c.Router = rapid.SampledFrom([]string{"provider", "legacy"}).Draw(t, "router")
-	c.SignAlg = rapid.SampledFrom([]string{"RS256", "RS256", "RS256", "ES256", "PS256", "EdDSA"}).Draw(t, "signalg")
+// genClients draws the 3-5 registered clients of a case; returns the indices of the private_key_jwt clients.
+func genClients(t *rapid.T, c *Case) []int {
 	n := rapid.SampledFrom([]int{3, 4, 4, 5, 5}).Draw(t, "nclients")
-	all := []string{"basic", "post", "pkjwt", "pkjwt", "pkjwt", "native", "spa", "native", "basic"}
+	all := []string{"basic", "post", "pkjwt", "pkjwt", "pkjwt", "native", "spa", "native", "basic", "odd", "odd"}
 	for i := 0; i < n; i++ {
 		var kind string
 		switch i {
@@ -316,7 +336,7 @@ func genCase0(t *rapid.T) Case {
 		case 1:
 			kind = rapid.SampledFrom([]string{"native", "native", "spa"}).Draw(t, "kind1")
 		case 2:
-			kind = rapid.SampledFrom([]string{"pkjwt", "pkjwt", "pkjwt", "pkjwt", "basic", "post", "native"}).Draw(t, "kind2")
+			kind = rapid.SampledFrom([]string{"pkjwt", "pkjwt", "pkjwt", "pkjwt", "basic", "post", "native", "odd"}).Draw(t, "kind2")
 		default:
 			kind = rapid.SampledFrom(all).Draw(t, fmt.Sprintf("kind%d", i))
 		}
@@ -328,6 +348,15 @@ func genCase0(t *rapid.T) Case {
 			pk = append(pk, i)
 		}
 	}
+	return pk
+}
+
+func genCase0(t *rapid.T) Case {
+	var c Case
+	c.Router = rapid.SampledFrom([]string{"provider", "legacy"}).Draw(t, "router")
+	c.SignAlg = rapid.SampledFrom([]string{"RS256", "RS256", "RS256", "ES256", "PS256", "EdDSA"}).Draw(t, "signalg")
+	pk := genClients(t, &c)
+	n := len(c.Clients)
 	steps := rapid.IntRange(3, vkit.Scale(14, 20)).Draw(t, "steps")
 	for s := 0; s < steps && len(c.Ops) < 40; s++ {
 		step := "flow"
@@ -379,6 +408,12 @@ type exec struct {
 	accepted       int
 	asserted       int
 	refusedNonTriv int
+
+	// race ops (race_test.go)
+	gateJ0   int // journal length when the first gate of this store was added (-1: none yet)
+	raceKeys map[string]bool
+	races    int
+	hung     bool // a request of a race never answered: the rest of the history is not executed
 }
 
 func clientKind(c *vkit.ClientSpec) string {
@@ -389,8 +424,19 @@ func clientKind(c *vkit.ClientSpec) string {
 		return "post"
 	case "private_key_jwt":
 		return "pkjwt"
+	case "none":
+		return c.AppType + "-public"
 	}
-	return c.AppType + "-public"
+	return "oddmethod"
+}
+
+// rightCred: what the honest holder of the client's credentials sends (a client of a method the OP does not implement: its
+// secret in the Basic header, the default of RFC 6749).
+func rightCred(c *vkit.ClientSpec) vkit.Cred {
+	if oddMethod(c) {
+		return vkit.Cred{Kind: "basic", ClientID: c.ID, Secret: c.Secret}
+	}
+	return vkit.RightCred(c, issuer)
 }
 
 func (e *exec) fp(format string, a ...any) string {
@@ -585,7 +631,7 @@ func (e *exec) present(o Op, as, owner *vkit.ClientSpec) (vkit.Cred, wire) {
 		if as.AuthMethod == "private_key_jwt" {
 			cr = assertion(true)
 		} else {
-			cr = vkit.RightCred(as, issuer)
+			cr = rightCred(as)
 		}
 	case "wrong_secret":
 		switch as.AuthMethod {
@@ -610,8 +656,10 @@ func (e *exec) present(o Op, as, owner *vkit.ClientSpec) (vkit.Cred, wire) {
 			cr = vkit.Cred{Kind: "basic", ClientID: as.ID, Secret: as.Secret}
 		case "private_key_jwt":
 			cr = vkit.Cred{Kind: "basic", ClientID: as.ID, Secret: "k-" + as.ID}
-		default:
+		case "none":
 			cr = vkit.Cred{Kind: "basic", ClientID: as.ID, Secret: ""}
+		default: // a method the OP does not implement: the secret as form values instead of the Basic header
+			cr = vkit.Cred{Kind: "post", ClientID: as.ID, Secret: as.Secret}
 		}
 	case "bad_key":
 		cr = assertion(false)
@@ -621,7 +669,7 @@ func (e *exec) present(o Op, as, owner *vkit.ClientSpec) (vkit.Cred, wire) {
 		// a private_key_jwt client presents the secret the storage holds for it (no assertion); every other client: its registered method
 		switch {
 		case as.AuthMethod != "private_key_jwt":
-			cr = vkit.RightCred(as, issuer)
+			cr = rightCred(as)
 		case as.Secret == "":
 			cr = assertion(true)
 		case o.Pres == "stored_basic":
@@ -706,27 +754,26 @@ func (e *exec) disarm(resp *vkit.Resp) *vkit.JEntry {
 	return nil
 }
 
-func (e *exec) exchange(i int, o Op) {
+// built is one token request, resolved against the live state of the history.
+type built struct {
+	a           attempt
+	rq          *mReq            // the authorization request the code belongs to (nil: the presented string is not a code)
+	owner, as   *vkit.ClientSpec // the code's client (unknown code: the As client stands in); whose credentials are presented
+	cred        vkit.Cred
+	w           wire
+	form        url.Values
+	reqRedirect string
+}
+
+// build resolves the symbolic operands of an exchange op; mc = the code it presents (nil: codeStr is a string the OP never issued).
+func (e *exec) build(o Op, mc *mCode, codeStr string) built {
 	clients := e.c.Clients
-	var a attempt
-	var rq *mReq
-	codeStr := "never-issued-code"
-	if len(e.m.codes) > 0 && o.CodeForm != "garbage" {
-		mc := e.m.codes[e.back(o.Code, len(e.m.codes))]
-		codeStr = mc.code
-		if o.CodeForm == "mangled" {
-			// same length, last character replaced: never issued
-			last := codeStr[len(codeStr)-1]
-			repl := byte('A')
-			if last == 'A' {
-				repl = 'B'
-			}
-			codeStr = codeStr[:len(codeStr)-1] + string(repl)
-		} else {
-			a.code = mc
-			rq = e.m.reqs[mc.req]
-		}
+	var b built
+	if mc != nil {
+		b.a.code = mc
+		b.rq = e.m.reqs[mc.req]
 	}
+	rq := b.rq
 	// the owner: the code's client; for unknown codes the As client stands in
 	var owner *vkit.ClientSpec
 	if rq != nil {
@@ -744,14 +791,17 @@ func (e *exec) exchange(i int, o Op) {
 	if owner == nil {
 		owner = as
 	}
-	cred, w := e.present(o, as, owner)
-	a.w = w
+	b.owner, b.as = owner, as
+	b.cred, b.w = e.present(o, as, owner)
+	b.a.w = b.w
+	a := &b.a
 
 	// redirect_uri
 	reqRedirect := as.RedirectURIs[0]
 	if rq != nil {
 		reqRedirect = rq.redirect
 	}
+	b.reqRedirect = reqRedirect
 	pickOther := func(c *vkit.ClientSpec) string {
 		for _, u := range c.RedirectURIs {
 			if u != reqRedirect {
@@ -802,29 +852,65 @@ func (e *exec) exchange(i int, o Op) {
 		}
 	}
 
-	vd := e.m.judge(a, clients)
-
-	form := vkit.CodeExchangeForm(codeStr, a.redirect, a.verifier)
+	b.form = vkit.CodeExchangeForm(codeStr, a.redirect, a.verifier)
 	if a.noRedirect {
-		form.Del("redirect_uri")
+		b.form.Del("redirect_uri")
 	}
 	if o.Extra {
-		form.Set("nonce", "nonce-from-token-request")
-		form.Set("scope", "openid admin")
-		form.Set("state", "state-from-token-request")
-		form.Set("sub", "u3")
+		b.form.Set("nonce", "nonce-from-token-request")
+		b.form.Set("scope", "openid admin")
+		b.form.Set("state", "state-from-token-request")
+		b.form.Set("sub", "u3")
 	}
-	e.arm(o.Fault)
-	resp := e.ag.Token(form, cred)
-	fired := e.disarm(resp)
+	return b
+}
+
+// noteAssertion remembers who authenticated with a valid assertion of its own (steers later foreign_key presentations).
+func (e *exec) noteAssertion(w wire) {
 	if w.hasAssertion && w.assertValid {
-		for ci := range clients {
-			if clients[ci].ID == w.assertIss {
+		for ci := range e.c.Clients {
+			if e.c.Clients[ci].ID == w.assertIss {
 				e.lastAsserter = ci
 				e.didAssert[ci] = true
 			}
 		}
 	}
+}
+
+func (b *built) describe(i int) string {
+	return fmt.Sprintf("op %d: code of %s (%s, pkce=%s, redirect %s) presented by %s redirect=%q(missing=%v) verifier=%q", i, b.owner.ID, clientKind(b.owner),
+		methodOf(b.rq), b.reqRedirect, b.w, b.a.redirect, b.a.noRedirect, b.a.verifier)
+}
+
+func (e *exec) exchange(i int, o Op) {
+	clients := e.c.Clients
+	var mc *mCode
+	codeStr := "never-issued-code"
+	if len(e.m.codes) > 0 && o.CodeForm != "garbage" {
+		c := e.m.codes[e.back(o.Code, len(e.m.codes))]
+		codeStr = c.code
+		if o.CodeForm == "mangled" {
+			// same length, last character replaced: never issued
+			last := codeStr[len(codeStr)-1]
+			repl := byte('A')
+			if last == 'A' {
+				repl = 'B'
+			}
+			codeStr = codeStr[:len(codeStr)-1] + string(repl)
+		} else {
+			mc = c
+		}
+	}
+	b := e.build(o, mc, codeStr)
+	a, rq, owner, as, cred, w, form, reqRedirect := b.a, b.rq, b.owner, b.as, b.cred, b.w, b.form, b.reqRedirect
+	_ = reqRedirect
+
+	vd := e.m.judge(a, clients)
+
+	e.arm(o.Fault)
+	resp := e.ag.Token(form, cred)
+	fired := e.disarm(resp)
+	e.noteAssertion(w)
 	if e.checkPanic(resp, "token endpoint") {
 		return
 	}
@@ -838,8 +924,7 @@ func (e *exec) exchange(i int, o Op) {
 	okShape := resp.Success() && resp.Str("access_token") != "" && resp.Str("id_token") != ""
 
 	ownerKind := clientKind(owner)
-	desc := fmt.Sprintf("op %d: code of %s (%s, pkce=%s, redirect %s) presented by %s redirect=%q(missing=%v) verifier=%q", i, owner.ID, ownerKind,
-		methodOf(rq), reqRedirect, w, a.redirect, a.noRedirect, a.verifier)
+	desc := b.describe(i)
 	if fired != nil {
 		desc += fmt.Sprintf(" (storage fault %q in %s, call %d of this request)", o.Fault.Kind, fired.Method, fired.Call)
 	}
@@ -1075,7 +1160,9 @@ func run(c Case) (res *vkit.Result) {
 		res.Label("skip:malformed-case")
 		return res
 	}
-	e := &exec{c: c, res: res, okKeys: map[string]bool{}, noKeys: map[string]bool{}, faultKeys: map[string]bool{}, lastAsserter: -1, didAssert: map[int]bool{}}
+	e := &exec{c: c, res: res, okKeys: map[string]bool{}, noKeys: map[string]bool{}, faultKeys: map[string]bool{}, lastAsserter: -1, didAssert: map[int]bool{},
+		gateJ0: -1, raceKeys: map[string]bool{}}
+	e.m.emptySecretOK = c.EmptySecretOK
 	e.rs = vkit.ClientSpec{ID: rsID, Secret: rsSecret, AppType: "web", AuthMethod: "client_secret_basic"}
 	var regs []*vkit.ClientSpec
 	for i := range c.Clients {
@@ -1085,7 +1172,7 @@ func run(c Case) (res *vkit.Result) {
 	regs = append(regs, &e.rs)
 	e.signKey = vkit.Key(signKeys[c.SignAlg])
 	// every token also names the resource server "rs" as audience, which lets it introspect tokens of public clients too
-	e.st = vkit.NewStore(regs, vkit.SignKeySpec{KeyName: signKeys[c.SignAlg], Alg: c.SignAlg, KID: "sig1"}, vkit.StorePolicy{ExtraAudience: []string{rsID}, ErrStyle: c.ErrStyle, EmptySecretOK: c.EmptySecretOK})
+	e.st = vkit.NewStore(regs, vkit.SignKeySpec{KeyName: signKeys[c.SignAlg], Alg: c.SignAlg, KID: "sig1"}, vkit.StorePolicy{ExtraAudience: []string{rsID}, ErrStyle: c.ErrStyle, EmptySecretOK: c.EmptySecretOK, LaxDelete: c.LaxDelete})
 	e.sut = vkit.MustBuild(vkit.DefaultProviderSpec(c.Router), e.st)
 	e.ag = vkit.NewAgent(e.sut)
 
@@ -1099,10 +1186,15 @@ func run(c Case) (res *vkit.Result) {
 			e.callback(o)
 		case "exchange":
 			e.exchange(i, o)
+		case "race":
+			e.race(i, o)
+		}
+		if e.hung {
+			break
 		}
 	}
 
-	res.Label("router:"+c.Router, "store:empty-secret-ok="+fmt.Sprint(c.EmptySecretOK))
+	res.Label("router:"+c.Router, "store:empty-secret-ok="+fmt.Sprint(c.EmptySecretOK), "store:lax-delete="+fmt.Sprint(c.LaxDelete))
 	res.Grey = e.asserted == 0 // nothing but grey exchanges (or none at all): only "no code before login" was asserted
 	res.NonTrivial = e.accepted > 0 && e.refusedNonTriv > 0
 	keys := func(m map[string]bool) []string {
@@ -1117,12 +1209,20 @@ func run(c Case) (res *vkit.Result) {
 	if len(e.faultKeys) > 0 {
 		res.Key += fmt.Sprintf("|faults=%v", keys(e.faultKeys))
 	}
+	if len(e.raceKeys) > 0 {
+		res.Key += fmt.Sprintf("|races=%v", keys(e.raceKeys))
+	}
 	kids := map[string]int{}
 	npk := 0
 	for i := range c.Clients {
 		if c.Clients[i].AuthMethod == "private_key_jwt" {
 			npk++
 			kids[kidOf(&c.Clients[i])]++
+		}
+	}
+	for i := range c.Clients {
+		if cl := &c.Clients[i]; oddMethod(cl) {
+			res.Label("clients:odd-auth-method", fmt.Sprintf("clients:odd-auth-method:%q:secret=%v", cl.AuthMethod, cl.Secret != ""))
 		}
 	}
 	if npk >= 2 {
@@ -1143,11 +1243,11 @@ func run(c Case) (res *vkit.Result) {
 
 var prop = vkit.Prop[Case]{
 	ID: "C04",
-	Rule: "cases = router (provider | legacy) x storage secret comparison (diligent: a client without a secret never matches | plain string equality: a client that holds no secret matches an empty presented one, as example/server/storage does) x id-token alg x 3-5 registered clients (client_secret_basic, client_secret_post, private_key_jwt - half of them with a secret the storage also holds; each with its own key, whose key id is either the client's own or one that several clients use for their different keys -, public native / user-agent; a redirect URI shared on purpose, some registered URIs with a query, an empty path, a trailing slash or a port; opaque or JWT access tokens) " +
+	Rule: "cases = router (provider | legacy) x storage secret comparison (diligent: a client without a secret never matches | plain string equality: a client that holds no secret matches an empty presented one, as example/server/storage does) x id-token alg x 3-5 registered clients (client_secret_basic, client_secret_post, private_key_jwt - half of them with a secret the storage also holds; each with its own key, whose key id is either the client's own or one that several clients use for their different keys -, public native / user-agent, confidential clients whose registered token endpoint auth method is none of the four the OP implements: never set (empty) / client_secret_jwt / tls_client_auth / self_signed_tls_client_auth / CLIENT_SECRET_BASIC / basic / a made-up one, 5 of 6 with a secret; a redirect URI shared on purpose, some registered URIs with a query, an empty path, a trailing slash or a port; opaque or JWT access tokens) " +
 		"x history of 3-40 ops: authorize(client, registered uri, pkce none|plain|plain-without-method|S256, verifier from a pool of 4, scopes, nonce), login(req, user), callback(req), " +
 		"exchange(code incl. replays / mangled / garbage, as owner or another client, presentation right|wrong secret|nothing proved, for every client kind: client_id form value only / Basic header naming the client with an empty password / client_id plus an empty client_secret parameter (a confidential client - secret or private_key_jwt - named that way must never be served, whatever the storage makes of an empty secret; a public client identifies that way)|other method|assertion with unregistered key|assertion naming the client and its key id but signed with the registered key of another private_key_jwt client (preferably one with the same key id that authenticated earlier in the history)|none|stored secret of a private_key_jwt client via Basic / POST instead of an assertion, extra body client_id, " +
 		"redirect same|other registered|caller's|missing|12 near-miss derivations of the request's URI (added query / fragment / userinfo / default port / extra or .. segment, trailing slash toggled, host or scheme upper-cased, percent-encoded path letter, query reordered / dropped; all must be refused), verifier right|wrong|missing|of another request|the challenge itself, extra nonce/scope parameters; about every 5th exchange and some callbacks with ONE storage fault in that very request: every call of a method on the path or the k-th storage call, kind error|deadline|partial (effect happens, error reported)|oidc|oidc-wrapped); " +
-		"oracle = code state machine written from the statement, two-sided; grey (asserts nothing on accept/refuse, still checks claims of issued tokens): mixed identity or non-registered method (incl. a private_key_jwt client presenting the secret its storage accepts: a genuine credential of that very client, whether the method may be used is property C05's subject; redeeming another client's code that way is must-reject), verifier without challenge, " +
+		"oracle = code state machine written from the statement, two-sided; a client of an unimplemented auth method is confidential: whoever presents neither its non-empty secret nor another credential of it is refused, with its right secret (Basic or form) the exchange is grey (the statement does not say how such a client authenticates), as it is when the client holds no secret and the storage accepts an empty one; grey (asserts nothing on accept/refuse, still checks claims of issued tokens): mixed identity or non-registered method (incl. a private_key_jwt client presenting the secret its storage accepts: a genuine credential of that very client, whether the method may be used is property C05's subject; redeeming another client's code that way is must-reject), verifier without challenge, " +
 		"a second code of a request whose other code was exchanged; an otherwise valid exchange in which a storage fault fired (may fail: C10's subject) and, after such a request answered without tokens, later otherwise valid exchanges of that request's codes (the storage may or may not have dropped it) - " +
 		"what stays asserted under faults: a must-reject yields no tokens, and a code that yielded tokens (faulted request or not) never does again; non-trivial = the history contains an exchange that yields tokens and one the model refuses for a reason other than an unknown code; " +
 		"distinct = (router, set of owner-kind/pkce of successful exchanges, set of refusal-reason combinations per owner kind, set of faulted-method:outcome of otherwise valid exchanges)",
